@@ -1,6 +1,7 @@
 /-
   C19  Kubernetes client-secret changes reach exactly the filters that reference them.
 -/
+import AuthProofs.StateInventory
 import AuthProofs.Secret
 import AuthProofs.Ladder
 import AuthModel.Generated.Facts
@@ -61,6 +62,12 @@ example : (reconcile { ns := B "ns", index := [(B "ns/s1", 0), (B "ns/s2", 2), (
     = [some (.literal (B "v")), none, some (.ref (B "ns") (B "s2")), some (.literal (B "v")), some (.literal (B "x"))] := by decide
 example : loadSecrets (B "ns") [some (.ref (B "other") (B "s"))] 0 = none := by decide
 
+/-- NO HIDDEN STATE: regenerated inventory of package internal (loader, TLS pool, file watcher), internal/http and internal/k8s: the only mutable state is the watcher table, the pool map and the secret index. -/
+theorem no_hidden_state_infra : InfraInventory := infra_inventory
+
+/-- NO HIDDEN STATE: the model treats a check as a function of (configuration, request, store answers, clock, IdP and key-source answers, entropy); that is a faithful reading of the code only if nothing else survives from one check to the next. Regenerated on every run: every package-level variable and struct field of internal/server, internal/authz, internal/http, internal/oidc is the classified expectation, and handlers, filter, HTTP helpers and the Redis store own no mutable state (no verdict cache, handler cache, object pool, single-flight group or per-process copy of session data). -/
+theorem no_hidden_state : CheckPathInventory := check_path_inventory
+
 end AuthProps.C19
 
 #print axioms AuthProps.C19.reconcile_updates_exactly
@@ -71,3 +78,5 @@ end AuthProps.C19
 #print axioms AuthProps.C19.rotation_stable
 #print axioms AuthProps.C19.token_request_uses_current
 #print axioms AuthProps.C19.secret_key_matches_source
+#print axioms AuthProps.C19.no_hidden_state_infra
+#print axioms AuthProps.C19.no_hidden_state
